@@ -350,6 +350,7 @@ let register_all register =
   register "codec" Regsuite.s_codec;
   register "router" s_router;
   register "routerconc" s_routerconc;
+  register "cmacconc" (fun _g obs -> ("ok", if obs = "ok" then "ok" else "bad:concurrent-cmac-calls-differ-from-the-same-calls-alone"));
   List.iter (fun n -> register ("gw" ^ n) Gwsuite.s_gw) ["C01"; "C02"; "C11"; "C15"; "C16"; "C17"];
   register "histC01" (s_hist Judge.judge_c01);
   register "histC03" (s_hist Judge.judge_c03);
